@@ -351,7 +351,7 @@ impl Process for Uniquness {
 //@@ safety C03 C18 C15
 //@@ endfn
 //@@ fn uniq.process = src/duplication_remover.rs :: impl Process for Uniquness :: fn process
-//@@ safety C03 C10 C14 C16 C20
+//@@ safety C03 C10 C14 C16 C20 C19
 //@@ before "Ok(ProcessDesision::Continue)"
             proof { assert(old(self).knwon_lines@.insert(ctx_key(context)) =~= old(self).knwon_lines@); }
 //@@ endfn
